@@ -5,7 +5,7 @@
 #include <algorithm>
 #include <numeric>
 
-namespace {
+namespace c03 {
 using vp::Model; using vp::Ctx; using vp::Input;
 namespace multi = boost::multi;
 
@@ -140,8 +140,10 @@ void run_algo(unsigned algo, It first, It last, std::vector<M>& mv, It2 first2, 
 	(void)ctx;
 }
 
+template<class Cfg>
 struct Fin {
 	int* root; long N; Ctx& ctx; Input const& in;
+	static constexpr bool Fancy = !std::is_same_v<typename Cfg::template ptr<int>, int*>;
 
 	template<class V, class I>
 	void operator()(V& v, Model& m, I& /*interp*/) {
@@ -156,6 +158,9 @@ struct Fin {
 	void go(V& v, Model const& m) {
 		unsigned const algo = in.head(10) % NALGOS;
 		bool use_elements = (in.head(11) & 1U) != 0 || D > 3;
+		// over fancy pointers proxy-row ranges are not exercised: the value_type of such an iterator is an array over the pointer's default_allocator_type (std::allocator for the
+		// harness' pointers), and ordering operators between operands of different pointer families are not offered by the library, so sort & co. do not instantiate
+		if constexpr(Fancy) { if(D >= 2) { use_elements = true; } }
 		unsigned const p = in.head(12), q = in.head(13);
 		long const nel = m.nelems();
 		if(nel == 0 && !m.d.empty() && m.d[0].size != 0) { ctx.count("zero_element_view_with_rows_skipped"); return; }
@@ -166,7 +171,11 @@ struct Fin {
 		vp::ops::Val sec; sec.ext.resize(static_cast<std::size_t>(D)); for(int k = 0; k < D; ++k) { sec.ext[static_cast<std::size_t>(k)] = m.d[static_cast<std::size_t>(k)].size; }
 		sec.v.resize(static_cast<std::size_t>(nel)); for(long j = 0; j < nel; ++j) { sec.v[static_cast<std::size_t>(j)] = static_cast<int>((j*5 + q) % 16U); }
 		int const kind = 2 + static_cast<int>((in.head(14) % 5U));  // K_VIEW .. K_STRIDED
-		vp::ops::with_operand<D, int, true>(sec, kind, [&](auto& w) {
+		auto with_second = [&](auto&& body) {  // over a fancy-pointer configuration the second range lives in storage of the same family (bit set) or over raw pointers
+			if constexpr(Fancy) { if((in.head(11) & 4U) != 0) { ctx.label("second_range_same_pointer_family"); vp::ops::with_operand_a<D, int, true, Cfg::template alloc>(sec, kind, body); return; } ctx.label("second_range_raw_pointer"); }
+			vp::ops::with_operand<D, int, true>(sec, kind, body);
+		};
+		with_second([&](auto& w) {
 			if(use_elements || D == 1) {
 				std::vector<int> mv(static_cast<std::size_t>(nel)); for(long j = 0; j < nel; ++j) { mv[static_cast<std::size_t>(j)] = before[static_cast<std::size_t>(pos[static_cast<std::size_t>(j)])]; }
 				std::vector<int> mv2 = sec.v;
@@ -175,14 +184,14 @@ struct Fin {
 				auto ident = [](int x) { return x; };
 				if(use_elements) { auto&& es = v.elements(); auto&& es2 = w.elements(); run_algo<decltype(es.begin()), int>(algo, es.begin(), es.end(), mv, es2.begin(), mv2, p, q, ctx, ident, rb, rb2); }
 				else if constexpr(D == 1) { run_algo<decltype(v.begin()), int>(algo, v.begin(), v.end(), mv, w.begin(), mv2, p, q, ctx, ident, rb, rb2); }
-			} else if constexpr(D == 2 || D == 3) {  // proxy rows: sub-views of rank D-1, modelled by their flattened canonical element sequence
+			} else if constexpr((D == 2 || D == 3) && !Fancy) {  // proxy rows: sub-views of rank D-1, modelled by their flattened canonical element sequence
 				long const rows = m.d[0].size, cols = rows == 0 ? 0 : nel / rows;
 				std::vector<Row> mv(static_cast<std::size_t>(rows)), mv2(static_cast<std::size_t>(rows));
 				for(long i = 0; i < rows; ++i) { for(long j = 0; j < cols; ++j) { mv[static_cast<std::size_t>(i)].push_back(before[static_cast<std::size_t>(pos[static_cast<std::size_t>(i*cols + j)])]); mv2[static_cast<std::size_t>(i)].push_back(sec.v[static_cast<std::size_t>(i*cols + j)]); } }
 				auto rb = [&]() { std::vector<Row> r(static_cast<std::size_t>(rows)); for(long i = 0; i < rows; ++i) { for(long j = 0; j < cols; ++j) { r[static_cast<std::size_t>(i)].push_back(root[pos[static_cast<std::size_t>(i*cols + j)]]); } } return r; };
 				auto rb2 = [&]() { std::vector<Row> r(static_cast<std::size_t>(rows)); long k = 0; for(auto const& e : w.elements()) { r[static_cast<std::size_t>(k / std::max<long>(cols, 1))].push_back(e); ++k; } return r; };
 				std::vector<long> sube; for(int k = 1; k < D; ++k) { sube.push_back(m.d[static_cast<std::size_t>(k)].size); }
-				auto to_array = [&](Row const& r) { multi::array<int, D - 1> a(vp::ops::make_ext<D - 1>(sube.data())); std::copy(r.begin(), r.end(), a.elements().begin()); return a; };
+				auto to_array = [&](Row const& r) { multi::array<int, D - 1, typename Cfg::template alloc<int>> a(vp::ops::make_ext<D - 1>(sube.data())); std::copy(r.begin(), r.end(), a.elements().begin()); return a; };
 				run_algo<decltype(v.begin()), Row>(algo, v.begin(), v.end(), mv, w.begin(), mv2, p, q, ctx, to_array, rb, rb2);
 			}
 		});
@@ -196,23 +205,25 @@ struct Fin {
 	}
 };
 
-template<int D>
+template<int D, class Cfg = vp::CfgRaw>
 void run_d(Input const& in, Ctx& ctx) {
 	auto r = vp::decode_root<D, false>(in, ctx);
 	r.kind = (r.kind % 3 == 0) ? vp::RK_ARRAY : (r.kind % 3 == 1 ? vp::RK_STATIC : vp::RK_REF);
-	vp::with_root<vp::CfgRaw, int, D, true>(r, [&](auto& root, Model m, int const* base, long N) {
+	vp::with_root<Cfg, int, D, true>(r, [&](auto& root, Model m, int const* base, long N) {
 		auto* wbase = const_cast<int*>(base);
 		unsigned s = in.head(9);
 		for(long i = 0; i < N; ++i) { s = s*1103515245U + 12345U; wbase[i] = static_cast<int>((s >> 16U) % 16U); }  // small alphabet: 4 keys x 4 tags, duplicates are the point
-		Fin fin{wbase, N, ctx, in};
-		vp::Interp<Fin, false, 3, false, true> interp(in, ctx, fin);
+		Fin<Cfg> fin{wbase, N, ctx, in};
+		vp::Interp<Fin<Cfg>, false, 3, false, true> interp(in, ctx, fin);
 		interp.null_root = (N == 0); interp.no_const = true;
 		vp::check_shape(root, m, "construction");
 		interp.step(root, m);
 	});
 }
-}  // namespace
+}  // namespace c03
 
+#ifndef VP_C03_NO_MAIN
+using namespace c03;
 struct Prop {
 	static constexpr char const* id = "C03";
 	static constexpr int H = 15, R = 4, MAXOPS = 5;
@@ -225,3 +236,4 @@ struct Prop {
 	}
 };
 VP_MAIN(Prop)
+#endif
